@@ -15,14 +15,15 @@ RULE = ("(a) the real TeeProcessor driven by a scripted pipe: every byte string 
         "pipes + tee threads) and in a parallel slot (log file descriptors); (c) args lists <=2 and options dicts <=2 over the "
         "primitive alphabet {'a','a b','','\\u00fc',0,-1,1.5,True,False} x success/failure: args.json/options.json decode to the "
         "declared values and exist exactly when non-empty (successful runs); (d) real-process conformance: a real `cond run` whose task "
-        "is a real process writing 0..1 MiB to both streams. non-trivial = non-empty stream or record; distinct = distinct input")
+        "is a real process writing 0..1 MiB to both streams. non-trivial = non-empty stream or record; distinct = distinct input"
+        ' Parallelizable experiments are also executed sequentially (default and --jobs 1), where forwarding is required.')
 ASSUMPTIONS = [
     "'any length' is exhaustive only up to the listed sizes; beyond that the copy loop is size-oblivious",
     "presence of args.json/options.json is only required for successful executions",
 ]
 CHUNK = 8
 ALPHA = [b"a", b"\n", b"\xff", b"\x00"]
-PRIMS = ["a", "a b", "", "ü", 0, -1, 1.5, True, False]
+PRIMS = ["a", "a b", "", "ü", 0, -1, 1.5, True, False, 1e-15, 0.1 + 0.2]
 
 
 def warmup():
